@@ -571,7 +571,22 @@ def check_memo_functions(ctx, functions, rule='A2p'):
                                 isinstance(st_.targets[0].value, ast.Name) and st_.lineno < s.lineno and \
                                 norm(st_.targets[0].value) != cont:
                             records.add(st_.targets[0].value.id)
-                    if records:
+                    # ... or in an accumulator it extends every round (`prev = prev + [...]`, `.append(...)`, `+=`)
+                    accs = set()
+                    for st_ in ast.walk(lp_):
+                        if isinstance(st_, ast.Assign) and isinstance(st_.targets[0], ast.Name) and \
+                                st_.targets[0].id not in carried_self and \
+                                any(isinstance(x, ast.Name) and x.id == st_.targets[0].id for x in ast.walk(st_.value)):
+                            accs.add(st_.targets[0].id)
+                        elif isinstance(st_, ast.AugAssign) and isinstance(st_.target, ast.Name) and \
+                                st_.target.id not in carried_self:
+                            accs.add(st_.target.id)
+                        elif isinstance(st_, ast.Call) and isinstance(st_.func, ast.Attribute) and \
+                                st_.func.attr in ('append', 'extend') and isinstance(st_.func.value, ast.Name) and \
+                                st_.func.value.id not in carried_self and norm(st_.func.value) != cont:
+                            accs.add(st_.func.value.id)
+                    records |= accs
+                    if True:
                         knames_all = set()
                         work_k = [t.slice]
                         seen_k = set()
@@ -590,14 +605,33 @@ def check_memo_functions(ctx, functions, rule='A2p'):
                         ctx.touch(fn)
                         ctx.ob(rule, fkey(fn, rule, f'{cont}[{key}]:key-from-decision-record'), okr,
                                f'{fn.module.relpath}:{s.lineno}',
-                               f'`{carried_self[0]}` is carried round the loop and continued by the memoised step; the '
-                               f'loop records what it applied in `{"/".join(sorted(records))}`: the key is formed from '
-                               f'that record', f'key <- {sorted(knames_all)}' if okr else
-                               f'the key `{key}` (<- {sorted(knames_all)}) does not read `{"/".join(sorted(records))}`: '
-                               f'it identifies the request, not what has been applied so far')
+                               f'`{carried_self[0]}` is carried round the loop and continued by the memoised step (it '
+                               f'is the result of everything applied so far); the key is formed from a record of what '
+                               f'the loop applied (`{"/".join(sorted(records)) or "none kept"}`)',
+                               f'key <- {sorted(knames_all)}' if okr else
+                               (f'the key `{key}` (<- {sorted(knames_all)}) does not read `{"/".join(sorted(records))}`: '
+                                f'it identifies the request, not what has been applied so far' if records else
+                                f'the key `{key}` (<- {sorted(knames_all)}) names the current step only and the loop '
+                                f'keeps no record of the earlier ones: two histories that end in the same step share '
+                                f'one entry'))
                 # a key the function itself tests against None is a sentinel on some paths ("no index known"): all
                 # calls on which it is None would share one entry, whatever they computed
                 knames = [x.id for x in ast.walk(t.slice) if isinstance(x, ast.Name)]
+                # ... read through the tuple the key is built as and plain aliases (`key = (a, k2)`, `k2 = i_comb`)
+                rd_ = rd or build_rd(fn)
+                work_n, seen_n = list(knames), set(knames)
+                while work_n:
+                    nm_ = work_n.pop()
+                    for d in rd_.defs_of(nm_, s):
+                        if d.kind == 'stmt' and isinstance(d.ast, ast.Assign) and len(d.ast.targets) == 1 and \
+                                isinstance(d.ast.targets[0], ast.Name):
+                            v_ = d.ast.value
+                            elts_ = v_.elts if isinstance(v_, ast.Tuple) else [v_]
+                            for e_ in elts_:
+                                if isinstance(e_, ast.Name) and e_.id not in seen_n:
+                                    seen_n.add(e_.id)
+                                    knames.append(e_.id)
+                                    work_n.append(e_.id)
                 for kn in knames:
                     tested = any(isinstance(c, ast.Compare) and len(c.ops) == 1 and
                                  isinstance(c.ops[0], (ast.Is, ast.IsNot)) and isinstance(c.left, ast.Name) and
